@@ -9,7 +9,7 @@
    cluster received, with the rules' verdict where they were applied; [y_br] the partition states and logs. *)
 From Coq Require Import List ZArith Bool.
 From SV Require Import Producer.Msg Producer.Actors Producer.Compose
-                       C05.Model C05.Witness C05.ProofsBroker C05.ProofsSys C05.ProofsWitness.
+                       C05.Model C05.Witness C05.ProofsBroker C05.ProofsSys C05.ProofsClient C05.ProofsLink C05.ProofsWitness.
 Import ListNotations.
 Open Scope Z_scope.
 
@@ -76,19 +76,37 @@ Theorem c05_broker_accepted_once : forall h, consistent (hist_claims h) -> verdi
 Proof. exact broker_accepted_once. Qed.
 Print Assumptions c05_broker_accepted_once.
 
-(* the partial theorem: for every configuration, schedule and fault script (lost acknowledgements, resends,
-   connection drops, leader moves, exhausted budgets, fatal errors included) in whose history every message was
+(* the client's success events are tied to the cluster's verdicts: in every reachable state, for every schedule and
+   every sane fault script (the broker does not invent an Ok / DuplicateSequenceNumber answer), a message reported
+   successful belongs to a batch that the rules accepted *)
+Theorem c05_success_link : forall c sched, forallb sane_choice sched = true ->
+  forall m o, In (Ev true m o) (g_events (y_st (yrun c sched))) ->
+  exists l, In l (y_hist (yrun c sched)) /\ accepted_entry l = true /\ In (m_id m) (ba_ids (rl_batch l)).
+Proof. exact success_link. Qed.
+Print Assumptions c05_success_link.
+
+(* the partial theorem: for every configuration, schedule and sane fault script (lost acknowledgements, resends,
+   connection drops, leader moves, exhausted budgets and fatal errors included) in whose history every message was
    always sent under one (partition, epoch, sequence) and no two messages under the same one: no message is in
-   the logs twice, and every message of a batch the cluster accepted is there exactly once.
+   the logs twice, and every message reported successful is there exactly once.
    The excluded class is exactly: some message was sent under two different stamps, or two messages under one
-   (c05_refuted_conn_drop: message 2 as (0,0) and (1,0); c05_refuted_epoch_bump: messages 2 and 3 both as (1,0)). *)
+   (c05_refuted_conn_drop: message 2 as (0,0) and (1,0); c05_refuted_epoch_bump: messages 2 and 3 both as (1,0);
+   c05_refuted_backlog: messages 1 and 3 both as (0,0)). *)
 Theorem c05_no_duplicate_partial : forall c sched,
+  let y := yrun c sched in
+  forallb sane_choice sched = true -> consistent (hist_claims (y_hist y)) ->
+  (forall i, (appended i y <= 1)%nat) /\ (forall i, In i (success_ids (y_st y)) -> appended i y = 1%nat).
+Proof. exact no_duplicate_partial. Qed.
+Print Assumptions c05_no_duplicate_partial.
+
+(* ... and for every batch the cluster accepted, reported or not *)
+Theorem c05_accepted_once : forall c sched,
   let y := yrun c sched in
   consistent (hist_claims (y_hist y)) ->
   (forall i, (appended i y <= 1)%nat) /\
   (forall l i, In l (y_hist y) -> accepted_entry l = true -> In i (ba_ids (rl_batch l)) -> appended i y = 1%nat).
 Proof. exact no_duplicate_consistent. Qed.
-Print Assumptions c05_no_duplicate_partial.
+Print Assumptions c05_accepted_once.
 
 (* client side: whatever the order of getAndIncrementSequenceNumber / bumpEpoch calls, from whatever state, the
    transaction manager never hands out the same (partition, epoch, sequence) twice *)
